@@ -359,3 +359,145 @@ package schema
 //@   ensures wfRules(result) && fresh(result) && len(result.order) == 0
 //@   ensures forall k string :: !(k in result.data)
 //@   no_panic
+
+// ---- type vocabulary (C20) ------------------------------------------------------------------------------
+
+//@ func IsValidType
+//@   property C20
+//@   ensures result == (s == "string" || s == "integer" || s == "float" || s == "decimal" || s == "boolean" || s == "object" || s == "array" || s == "null" || s == "email" || s == "uri" || s == "uuid" || s == "date" || s == "datetime" || s == "enum" || s == "mixed" || s == "any" || s == "comment")
+//@   no_panic
+
+//@ fun schemaTokenType(t SchemaType) string := t == "object" ? "object" : (t == "array" ? "array" : (t == "string" ? "string" : (t == "integer" || t == "float" || t == "decimal" ? "number" : (t == "boolean" ? "boolean" : (t == "null" ? "null" : (t == "mixed" ? "reference" : (t == "comment" ? "annotation" : "")))))))
+
+//@ func (SchemaType).ToTokenType
+//@   property C20
+//@   ensures result == schemaTokenType(t)
+//@   no_panic
+
+//@ func (SchemaType).IsOneOf
+//@   property C20
+//@   ensures result == (t != "" && !(forall j :: 0 <= j && j < len(tt) ==> tt[j] != t))
+//@   no_panic
+//@   loop#1 invariant -1 <= rangeindex && rangeindex < len(tt) && t != ""
+//@   loop#1 invariant forall j :: 0 <= j && j <= rangeindex ==> tt[j] != t
+//@   loop#1 decreases len(tt) - rangeindex
+
+//@ func (SchemaType).IsScalar
+//@   property C20
+//@   ensures result == (t == "string" || t == "integer" || t == "float" || t == "decimal" || t == "boolean" || t == "null" || t == "email" || t == "uri" || t == "uuid" || t == "date" || t == "datetime" || t == "enum")
+//@   no_panic
+
+// the token type of a JSON type and of the schema type of the same name agree, and type names round-trip
+//@ lemma tokenTypesAgree(jt json.Type)
+//@   property C20
+//@   requires 1 <= jt && jt <= 8
+//@   ensures pure("(SchemaType).ToTokenType", pure("json::(Type).String", jt)) == pure("json::(Type).ToTokenType", jt)
+
+// documented soft-equality relation (doc comment of IsEqualSoft and the property statement):
+// reflexive on defined types; decimal~float; string~email~uri~uuid~date~datetime; enum/mixed/any relate to
+// every defined type except comment
+//@ pred isDefinedType(t SchemaType) := t == "string" || t == "integer" || t == "float" || t == "decimal" || t == "boolean" || t == "object" || t == "array" || t == "null" || t == "email" || t == "uri" || t == "uuid" || t == "date" || t == "datetime" || t == "enum" || t == "mixed" || t == "any" || t == "comment"
+//@ pred isStringFamily(t SchemaType) := t == "string" || t == "email" || t == "uri" || t == "uuid" || t == "date" || t == "datetime"
+//@ pred isFloatFamily(t SchemaType) := t == "float" || t == "decimal"
+//@ pred isWildType(t SchemaType) := t == "enum" || t == "mixed" || t == "any"
+//@ pred softEq(t SchemaType, x SchemaType) := (t == x && t != "") || (isStringFamily(t) && isStringFamily(x)) || (isFloatFamily(t) && isFloatFamily(x))
+//@     || (isWildType(t) && isDefinedType(x) && x != "comment") || (isWildType(x) && isDefinedType(t) && t != "comment")
+
+//@ func (SchemaType).IsEqualSoft
+//@   property C20
+//@   reads_init schemaTypeComparisonMap
+//@   requires isDefinedType(t) && isDefinedType(x)
+//@   ensures result == softEq(t, x)
+//@   no_panic
+//@   loop#1 invariant -1 <= rangeindex && rangeindex < len(schemaTypeComparisonMap[t]) && t != x
+//@   loop#1 invariant forall j :: 0 <= j && j <= rangeindex ==> schemaTypeComparisonMap[t][j] != x
+//@   loop#1 decreases len(schemaTypeComparisonMap[t]) - rangeindex
+
+//@ lemma softEqSymmetric(t SchemaType, x SchemaType)
+//@   property C20
+//@   ensures softEq(t, x) == softEq(x, t)
+//@ lemma softEqReflexiveOnDefinedTypes(t SchemaType)
+//@   property C20
+//@   requires isDefinedType(t)
+//@   ensures softEq(t, t)
+//@ lemma softEqUndefinedRelatesNothing(x SchemaType)
+//@   property C20
+//@   requires isDefinedType(x)
+//@   ensures !softEq("", x) && !softEq(x, "")
+//@ lemma isEqualSoftSymmetric(t SchemaType, x SchemaType)
+//@   property C20
+//@   requires isDefinedType(t) && isDefinedType(x)
+//@   ensures pure("(SchemaType).IsEqualSoft", t, x) == pure("(SchemaType).IsEqualSoft", x, t)
+
+// ---- GuessSchemaType (C20, C09, C17) ----------------------------------------------------------------------
+// The cached number, when present, is the parse of g.data.
+//@ pred guesserOK(g *typeGuesser) := g != nil && len(g.data) <= 1099511627776 && (g.number != nil ==> wfNumber(*g.number) && num_acc(numrun(g.data, len(g.data))))
+
+//@ func (*typeGuesser).parseNumber
+//@   property C20 C02
+//@   requires guesserOK(g)
+//@   modifies g.number
+//@   ensures guesserOK(g) && g.data == old(g.data)
+//@   ensures result1 == nil ==> result0 != nil && result0 == g.number && num_acc(numrun(g.data, len(g.data)))
+//@   ensures result1 != nil ==> result0 == nil
+//@   no_panic
+
+//@ func (*typeGuesser).isInteger
+//@   property C20 C02
+//@   requires guesserOK(g)
+//@   modifies g.number
+//@   ensures guesserOK(g) && g.data == old(g.data)
+//@   ensures result ==> num_acc(numrun(g.data, len(g.data)))
+//@   no_panic
+//@   loop#1 invariant -1 <= rangeindex && rangeindex < len(g.data)
+//@   loop#1 decreases len(g.data) - rangeindex
+
+//@ func (*typeGuesser).isFloat
+//@   property C20 C02
+//@   requires guesserOK(g)
+//@   modifies g.number
+//@   ensures guesserOK(g) && g.data == old(g.data)
+//@   ensures result ==> num_acc(numrun(g.data, len(g.data))) || !(forall j :: 0 <= j && j < len(g.data) ==> g.data[j] != 46)
+//@   no_panic
+//@   loop#1 invariant -1 <= rangeindex && rangeindex < len(g.data)
+//@   loop#1 invariant dot ==> !(forall j :: 0 <= j && j <= rangeindex ==> g.data[j] != 46)
+//@   loop#1 decreases len(g.data) - rangeindex
+
+//@ func (*typeGuesser).Guess
+//@   property C20 C02 C09
+//@   requires guesserOK(g)
+//@   modifies g.number
+//@   let d := g.data
+//@   let isStr := len(d) >= 2 && d[0] == 34 && d[len(d)-1] == 34
+//@   ensures isStr ==> result0 == "string" && result1 == nil
+//@   ensures !isStr && (eqlit(d, "true") || eqlit(d, "false")) ==> result0 == "boolean" && result1 == nil
+//@   ensures eqlit(d, "null") ==> result0 == "null" && result1 == nil
+//@   ensures eqlit(d, "{") ==> result0 == "object" && result1 == nil
+//@   ensures eqlit(d, "[") ==> result0 == "array" && result1 == nil
+//@   ensures result1 == nil ==> (result0 == "string" || result0 == "boolean" || result0 == "null" || result0 == "integer" || result0 == "float" || result0 == "object" || result0 == "array")
+//@   ensures result1 != nil ==> result0 == ""
+//@   ensures (result0 == "integer" || result0 == "float") ==> !isStr && !eqlit(d, "true") && !eqlit(d, "false") && !eqlit(d, "null")
+//@   ensures result0 == "integer" ==> num_acc(numrun(d, len(d)))
+//@   no_panic
+//@   loop#1 invariant -1 <= rangeindex && rangeindex < 7 && guesserOK(g) && g.data == old(g.data)
+//@   loop#1 invariant rangeindex >= 0 ==> !isStr
+//@   loop#1 invariant rangeindex >= 1 ==> !eqlit(d, "true") && !eqlit(d, "false")
+//@   loop#1 invariant rangeindex >= 2 ==> !eqlit(d, "null")
+//@   loop#1 invariant rangeindex >= 5 ==> !eqlit(d, "{")
+//@   loop#1 invariant rangeindex >= 6 ==> !eqlit(d, "[")
+//@   loop#1 decreases 7 - rangeindex
+//@   at return use unfold_numrun(d, 1); unfold_numrun(d, 0); unfold_numrun(d, 2); unfold_numrun(d, 3); unfold_numrun(d, 4)
+
+//@ func GuessSchemaType
+//@   property C20 C02 C09
+//@   requires len(b) <= 1099511627776
+//@   let isStr := len(b) >= 2 && b[0] == 34 && b[len(b)-1] == 34
+//@   ensures isStr ==> result0 == "string" && result1 == nil
+//@   ensures !isStr && (eqlit(b, "true") || eqlit(b, "false")) ==> result0 == "boolean" && result1 == nil
+//@   ensures eqlit(b, "null") ==> result0 == "null" && result1 == nil
+//@   ensures eqlit(b, "{") ==> result0 == "object" && result1 == nil
+//@   ensures eqlit(b, "[") ==> result0 == "array" && result1 == nil
+//@   ensures result1 == nil ==> (result0 == "string" || result0 == "boolean" || result0 == "null" || result0 == "integer" || result0 == "float" || result0 == "object" || result0 == "array")
+//@   ensures result1 != nil ==> result0 == ""
+//@   ensures result0 == "integer" ==> num_acc(numrun(b, len(b)))
+//@   no_panic
